@@ -138,6 +138,15 @@ Theorem C05_source_foreach_or_cond_is_model : forall (rg : RG) (rp : RP) sp k s,
 Proof. exact gen_run_foreach_or_conditional_is_model. Qed.
 Print Assumptions C05_source_foreach_or_cond_is_model.
 
+(** one while iteration read from the source ([WhileDecorator.exec_iteration]): whileCounter is
+    written before the body runs, the body's abnormal outcome ends the loop, and [stop] is evaluated
+    after the body, against the context the body left *)
+Theorem C05_source_while_iteration_is_model : forall (rg : RG) (rp : RP) w sp n s,
+  gen_while_exec_iteration w (fun c => foreach_or_cond rg rp sp (mkcnt (Some c) None None)) n s
+  = while_iter rg rp w sp n s.
+Proof. exact gen_while_exec_iteration_is_model. Qed.
+Print Assumptions C05_source_while_iteration_is_model.
+
 (** * Non-vacuity: while(max 3, stop when cnt>=4) over foreach [a;b], sleeping 1/2 *)
 Definition lib5 : library :=
   [("main", [("steps", Some [
